@@ -10,7 +10,8 @@ CLAIMED = {
             "has all its bytes in the range of its tile); check_mem_limits returns normally IFF every range of every region, read and written, lies "
             "inside the region's limit, else VelaError (nested loop invariants over a dict of range sets); get_region maps only the permanent memory "
             "types to the constants region; get_mem_limits_for_regions / mem_type_size give arena_cache_size as the fast-scratch limit exactly in "
-            "Dedicated-SRAM modes and shram_size_bytes for SHRAM. The composition over scheduler, allocator and serialiser is an assumed link.",
+            "Dedicated-SRAM modes and shram_size_bytes for SHRAM; rolling_buffer_shape and the double-buffer sizes of the weight encoder bound what is "
+            "written into the buffers they size. The composition over scheduler, allocator and serialiser is an assumed link.",
             PYVC_NOTE + " Not yet under contract in this revision: get_op_memory_accesses / get_dma_memory_accesses (construction of the access sets from the "
             "footprints), the order check-before-issue in generate_command_stream, Tensor.address_for_coordinate, publication of allocator totals as "
             "tensor shapes (DESIGN 3/C02 links L3, L5-L8). Tile boxes are required to have height_1 == height_0 (all compiler-built tile boxes do).",
@@ -20,16 +21,19 @@ CLAIMED = {
             "NEWEST conflicting operation of the other queue, leaves nothing outstanding there that conflicts with the new operation, and bounds its "
             "own queue by the hardware depth (loop invariants over the reverse scan and the pop loop, lists of object references, conflict relation "
             "abstract); block-job geometry for BLOCKDEP (block numbering, previous-job OFM volume, first-job IFM volume contains the receptive field, "
-            "per accelerator class) and the search loops of calc_blockdep: if job f of this operation overlaps the b-th block from the end of the "
+            "per accelerator class), one address range per row and tile of a feature-map sub-area (get_address_ranges_for_area), exactness of "
+            "MemoryRangeSet.intersects and MemoryAccessSet.conflicts, and the search loops of calc_blockdep: if job f of this operation overlaps the b-th block from the end of the "
             "previous one then BLOCKDEP <= f + b (suffix slice, geometry abstract).",
-            PYVC_NOTE + " Not under contract: MemoryRangeSet / MemoryAccessSet operations (dict comprehension over key unions), the prefix of "
+            PYVC_NOTE + " Not under contract: MemoryRangeSet.__or__/__ior__ and MemoryAccessSet.add (dict comprehension over key unions), the prefix of "
             "calc_blockdep (forced-zero cases, whole-tensor overlap), generate_cmd_waits and the issue order in generate_command_stream; the WAR/WAW "
             "obligation between consecutive kernels (DESIGN D9) is not decided; the hardware execution model is an axiom set (DESIGN 3/C04).",
             "contract-based deductive verification (loop invariants, heap model, ghost permutation lemmas, mechanical suffix slice; bounded refutation for changed code)", "DESIGN.md 3/C04, 7.2"),
     "C05": ("Unbounded proofs with loop invariants over a symbolic heap: GreedyAllocator.alloc keeps current_allocs sorted/disjoint, places the new "
             "range aligned and disjoint from every live entry and tracks memory_required exactly; HillClimb allocate_lr terminates (variant) "
-            "and avoids every allocated neighbour; iteration bound / memory limit resolution of the constructor (slice). Remaining allocator "
-            "functions are listed as not yet under contract in the evidence.",
+            "and avoids every allocated neighbour; allocate_indices keeps every pair of allocated ranges that are alive together disjoint (loop invariant, modular allocate_lr "
+            "with a cell-level frame); iteration bound / memory limit resolution of the constructor (slice). BOUNDED stand-ins (labelled, not counted "
+            "as proved): neighbour relation of the HillClimb constructor, end-to-end allocate() and greedy allocate_live_ranges on every instance of a "
+            "small scope. dealloc, linear allocation and search are not under contract.",
             PYVC_NOTE + " Stable-sort insertion axiom for sorted(); LiveRange.set_address treated as returning its argument.",
             "contract-based deductive verification (symbolic execution of real AST + SMT, loop invariants, heap model)", "DESIGN.md 3/C05"),
     "C06": ("Unbounded proof of the emitter's representation invariant (what each register machine remembers equals what a decoder of the "
@@ -38,18 +42,19 @@ CLAIMED = {
             "passed to the emitter fits its 16/32-bit field (call-site obligations = no truncation) and that alignment errors are raised "
             "exactly when a stride/length/address is misaligned; exactly one kick-off word per operation, never NPU_OP_STOP.",
             PYVC_NOTE + " Ghost field `decoded` is updated by ghost statements at the two append sites (reviewed to mirror the decoder); "
-            "legal(op) ranges are the contract preconditions printed in the evidence; generate_common / per-op generators / generate_command_stream "
-            "composition are not yet under contract in this revision.",
+            "legal(op) ranges are the contract preconditions printed in the evidence; the IFM / IFM2 / OFM register groups, SHRAM and broadcast registers are under contract; generate_common / "
+            "per-op generators / generate_command_stream composition and the scaling generators are not.",
             "contract-based deductive verification (heap model with maps, ghost state, opaque invariants, modular calls)", "DESIGN.md 3/C06"),
     "C08": ("Unbounded proof (Python side): encode_bias is the inverse of the 80-bit record reader (40-bit two's-complement bias, 32-bit scale, "
             "6-bit shift, every byte in range); slice/core loops of encode_weight_and_scale_tensor (mechanical suffix slice, per core count and "
             "weights/scale-only mode, loop invariants): every recorded (core, slice) range starts 16-byte aligned, after every earlier range (disjoint, "
             "stream order), holds exactly one 10-byte record per output channel of the slice assigned to that core, weight section at the next "
             "16-byte boundary with a 16-byte multiple length, is exactly the bytes appended for it; the stream length is a multiple of 16; the recorded "
-            "double-buffer sizes bound every slice of that parity.",
+            "double-buffer sizes bound every slice of that parity; create_weights / create_dma_op: address ranges and DMA length handed to the "
+            "hardware equal tensor address + recorded range (16-byte rounded, cores packed back to back for buffered tensors).",
             PYVC_NOTE + " Assumed (listed in the evidence): mlw_codec output length is a multiple of 16 (C07), _prepare_scale_and_bias returns one in-range "
             "(scale, shift, bias) per channel, slice boundaries except the last are multiples of the core count and the last is the OFM depth (call sites). "
-            "Not yet under contract: create_weights / create_dma_op address derivation; the compression-cache clause (2-safety over the process-wide "
+            "The compression-cache clause (2-safety over the process-wide "
             "cache) is outside this revision - a cached encoding being byte-identical to a fresh one is NOT decided.",
             "contract-based deductive verification (mechanical suffix slice, loop invariants, ghost fields, proof hints at the recording site)", "DESIGN.md 3/C08"),
     "C09": ("Unbounded proof, per function and per numeric argument type, that quantise_scale & co compute exactly the TFLite "
@@ -61,15 +66,19 @@ CLAIMED = {
     "C10": ("Unbounded proof that Box.transform_with_strides_and_skirt returns, for every OFM box, stride, skirt and IFM shape, exactly the receptive "
             "field clipped to the IFM (start and both vertical paddings exact; end covers it and stays inside the IFM), that the padding/skirt "
             "computation gives the SAME/VALID split with the trailing skirt covering the last window, and the rolling-buffer liveness lemma "
-            "(rows needed by a consumer stripe and rows written next never share a slot). Variants proved: no split offset, upscale 1.",
-            PYVC_NOTE + " np.subtract on 4-lists modelled element-wise on mathematical ints; stripe loops of the generator, create_padding, "
-            "split offsets and upscaling are not yet under contract in this revision.",
+            "(rows needed by a consumer stripe and rows written next never share a slot); _required_size / get_ifm_area_required book exactly the rows "
+            "and columns the receptive field needs (each axis with its own stride and dilated kernel); the stripe generator derives the dilated kernel "
+            "height from the H entries of ksize / weights / dilation and every cascade build starts with an empty buffer-shape cache (window slices); "
+            "create_padding hands the hardware the operator's own padding for single-stripe execution, else the box's vertical padding, and "
+            "left/right padding only at the edges of the read window. Variants proved: no split offset, upscale 1.",
+            PYVC_NOTE + " np.subtract on 4-lists modelled element-wise on mathematical ints; stripe loops of the generator, tile padding, "
+            "split offsets in the box transform and upscaling are not under contract in this revision.",
             "contract-based deductive verification (symbolic execution of real AST + SMT)", "DESIGN.md 3/C10"),
     "C15": ("Unbounded proof, for each of the distinct SHRAM configurations / six accelerators (finite, exhaustive) and all shapes, kernels, bit depths "
             "and flags symbolic, that a layout returned by _try_block_config is ordered, non-overlapping, inside the bank count and that its "
             "IFM / accumulator partitions double-buffer the block at the bank granule; try_block_config accepts only positive multiples of the "
             "micro-block within the maximum block and returns exactly that layout; get_arch_block_config (the generator) requests that validation for "
-            "exactly the operation's own block, shapes, bit depth, traversal, kernel, LUT use, scalar/tensor second input and scaling (argument capture).",
+            "exactly the operation's own block, shapes, bit depth, traversal, kernel, LUT use, scalar/tensor second input and scaling (argument capture), and generate_shram_registers writes exactly that layout.",
             PYVC_NOTE + " float '/ 8' handled as exact dyadic arithmetic (exactness proved per operation); find_block_config search loop and the "
             "public query loop are not yet under contract in this revision.",
             "contract-based deductive verification (symbolic execution of real AST + SMT), per-accelerator instantiation", "DESIGN.md 3/C15"),
